@@ -1,89 +1,54 @@
 /-
   C15 — criteria counting and lookups agree with a linear scan of the range.
 
-  Theorems about `Model.C15` (the mirror of xlcriteria.py, COUNTIF/COUNTIFS of statistics.py and
-  lookup.py) for ALL columns, tables, criteria, keys and indices, and the refinement of the model to
-  `Spec.C15` on the statement's domain.  The regular expression and the operator table come from
-  `Gen.Misc` and are pinned by `decide` obligations stated as shape conditions.
+  Property theorems about `Model.C15` (the mirror of xlcriteria.py, COUNTIF/COUNTIFS of statistics.py
+  and lookup.py) for ALL columns, tables, criteria, keys and indices; the refinement of the model to
+  `Spec.C15` on the statement's domain; the `decide` obligations on the regenerated regular expression
+  and operator table; non-vacuity examples and regression examples for the repaired defects
+  (D29–D32, D1501–D1503).  Proofs and helper lemmas: `Lemmas/C15Regex.lean`, `Lemmas/C15Number.lean`,
+  `Lemmas/C15Main.lean`.
+
+  Vocabulary (defined in the lemma files): `cls` (Spec.C09) is the order class of a non-blank,
+  non-error scalar; `toBin` maps a statement operator to the model's; `Decides chk q` = the closure
+  `chk` answers criterion `q` on every classified cell; `AllPairs pairs sp` = every (range, criterion)
+  pair has the statement-level reading in `sp`; `KeyedRows rows sp` = every row has a classified key
+  cell; `flattenPairs` = the flattened varargs of COUNTIFS.
 -/
-import XlVerif.Model.C15
-import XlVerif.Spec.C15
-import XlVerif.Lemmas.C15Regex
-import XlVerif.Lemmas.C15Number
-import XlVerif.Props.C09
+import XlVerif.Lemmas.C15Main
 namespace XlVerif.Props.C15
 open XlVerif XlVerif.Model.Value XlVerif.Model.C15 XlVerif.Spec.C09 XlVerif.Lemmas.C15
 
-/-! ## obligations on the regenerated tables -/
+/-! ## obligations on the regenerated tables (re-checked against what the code says now) -/
 
 /-- `CRITERIA_REGEX` has the shape `(alt|…|alt)?(.*)` with literal alternatives over `< > =` -/
 theorem regex_shape : (regexAlts Gen.criteriaRegex).isSome = true := by decide
 
 /-- its alternatives are operator strings of length ≤ 2 and, tried in order, select the longest
-    operator prefix on all 21 representative two-character strings (order/shape condition, not a
-    literal comparison: an equivalent reordering still passes) -/
+    operator prefix on all 21 representative strings (an order/shape condition, not a literal
+    comparison: an equivalent reordering still passes, `<` before `<=` does not) -/
 theorem regex_alts_ok : altsOK genAlts = true := by decide
 
-/-- the model's operator type for a statement operator -/
-def toBin : Spec.C15.Op → BinOp
-  | .eq => .eq | .ne => .ne | .lt => .lt | .le => .le | .gt => .gt | .ge => .ge
-
-/-- `CRITERIA_OPERATORS` maps exactly the six prefixes of the statement to their operators
-    (through `lookup`, so the order of the table does not matter) and nothing to the empty prefix -/
+/-- `CRITERIA_OPERATORS` maps exactly the six prefixes of the statement to their operators (through
+    `lookup`: the order of the table does not matter) and nothing to the empty prefix -/
 theorem operator_table :
     operatorOf [] = none ∧
     operatorOf ['<'] = some .lt ∧ operatorOf ['<', '='] = some .le ∧ operatorOf ['='] = some .eq ∧
     operatorOf ['<', '>'] = some .ne ∧ operatorOf ['>', '='] = some .ge ∧ operatorOf ['>'] = some .gt := by
   decide
 
-/-- `sort_precedence` separates numbers (and dates), texts and booleans -/
+/-- `sort_precedence` separates numbers (and dates), texts and booleans; an error has none -/
 theorem precedence_table (n : Num) (t : List Char) (b : Bool) (d : Rat) :
     precedence (.num n) = some 0 ∧ precedence (.text t) = some 1 ∧ precedence (.bool b) = some 2 ∧
     precedence (.date d) = some 0 ∧ precedence .blank = some 0 ∧ ∀ c, precedence (.err c) = none :=
   ⟨rfl, rfl, rfl, rfl, rfl, fun _ => rfl⟩
 
-/-! ## the criteria parser -/
+/-! ## property and refinement theorems -/
 
 /-- **the regex split is the longest-operator-prefix split, for every string** -/
 theorem split_spec (s : List Char) :
     regexSplit genAlts s =
-      ((Spec.C15.splitOp s).1, (Spec.C15.splitOp s).2.takeWhile (fun c => c ≠ '\n')) :=
-  regexSplit_spec regex_alts_ok s
-
-theorem splitOp_cases (s : List Char) :
-    (Spec.C15.splitOp s).1 = [] ∧ (Spec.C15.splitOp s).2 = s ∨
-    (Spec.C15.splitOp s).1 = ['<'] ∨ (Spec.C15.splitOp s).1 = ['<', '='] ∨ (Spec.C15.splitOp s).1 = ['='] ∨
-    (Spec.C15.splitOp s).1 = ['<', '>'] ∨ (Spec.C15.splitOp s).1 = ['>', '='] ∨ (Spec.C15.splitOp s).1 = ['>'] := by
-  unfold Spec.C15.splitOp
-  split <;> simp
-
-theorem takeWhile_id {α} {p : α → Bool} {l : List α} (h : ∀ a ∈ l, p a = true) : l.takeWhile p = l := by
-  induction l with
-  | nil => rfl
-  | cons a r ih => simp [h a (by simp), ih (fun b hb => h b (by simp [hb]))]
-
-theorem no_newline {l : List Char} (h : l.contains '\n' = false) :
-    l.takeWhile (fun c => c ≠ '\n') = l := by
-  apply takeWhile_id
-  intro a ha
-  simp only [List.contains_eq_mem, decide_eq_false_iff_not] at h
-  simp only [ne_eq, decide_not, Bool.not_eq_eq_eq_not, Bool.not_true, decide_eq_false_iff_not]
-  intro e; subst e; exact h ha
-
-/-- how `parse_criteria` splits and types a text whose operand has no line break: the operator is the
-    statement's, the ordering flag is set exactly for `< <= > >=`, and the operand typed is the
-    text after the operator prefix -/
-theorem parseText_eq (ext : Ext) (s : List Char) (hnl : (Spec.C15.splitOp s).2.contains '\n' = false) :
-    parseText ext s =
-      (typeOperand ext (Spec.C15.splitOp s).2).map fun v =>
-        ⟨toBin (Spec.C15.opOfPrefix (Spec.C15.splitOp s).1),
-         (Spec.C15.opOfPrefix (Spec.C15.splitOp s).1).ordering, v⟩ := by
-  obtain ⟨t0, t1, t2, t3, t4, t5, t6⟩ := operator_table
-  unfold parseText
-  rw [split_spec, no_newline hnl]
-  rcases splitOp_cases s with ⟨h, h2⟩ | h | h | h | h | h | h <;>
-    simp [h, t0, t1, t2, t3, t4, t5, t6, Spec.C15.opOfPrefix, toBin, Spec.C15.Op.ordering]
-  · rw [h2]
+      ((Spec.C15.splitOp s).1, (Spec.C15.splitOp s).2.takeWhile (fun c => c ≠ '\n')) := by
+  apply Lemmas.C15.split_spec <;> assumption
 
 /-- **numeric operands**: for every operator prefix and every numeral `-?digits(.digits)?` the
     criterion is (operator, that number) — e.g. `"<-1"` is `(<, -1)`, `">=-2.5"` is `(>=, -2.5)`. -/
@@ -93,10 +58,7 @@ theorem parse_numeric (ext : Ext) (s : List Char) (q : Rat)
     ∃ n, n.toRat = q ∧ parseText ext s =
       some ⟨toBin (Spec.C15.opOfPrefix (Spec.C15.splitOp s).1),
             (Spec.C15.opOfPrefix (Spec.C15.splitOp s).1).ordering, .num n⟩ := by
-  obtain ⟨n, hn, hq⟩ := number_sound ext _ q h
-  refine ⟨n, hq, ?_⟩
-  rw [parseText_eq ext s hnl]
-  simp [typeOperand, hn]
+  apply Lemmas.C15.parse_numeric <;> assumption
 
 /-- **text operands**: for every operator prefix and every word the criterion is (operator, that
     text) -/
@@ -106,15 +68,7 @@ theorem parse_word (ext : Ext) (s : List Char)
     parseText ext s =
       some ⟨toBin (Spec.C15.opOfPrefix (Spec.C15.splitOp s).1),
             (Spec.C15.opOfPrefix (Spec.C15.splitOp s).1).ordering, .text (Spec.C15.splitOp s).2⟩ := by
-  have hnl : (Spec.C15.splitOp s).2.contains '\n' = false := by
-    generalize (Spec.C15.splitOp s).2 = t at hw
-    cases t with
-    | nil => simp [Spec.C15.isWord] at hw
-    | cons c r =>
-      simp only [Spec.C15.isWord, Bool.and_eq_true, Bool.not_eq_true'] at hw
-      exact hw.1.2
-  rw [parseText_eq ext s hnl, word_is_text ext _ hw hdate]
-  rfl
+  apply Lemmas.C15.parse_word <;> assumption
 
 /-- **refinement of the parser**: whenever the statement assigns a criterion to a text, the code's
     parser produces that operator, the ordering flag of the operator, and an operand of that class -/
@@ -122,37 +76,7 @@ theorem parse_refines (ext : Ext) (s : List Char) (op : Spec.C15.Op) (k : Cls)
     (h : Spec.C15.critOfText s = some (op, k))
     (hdate : ext.dateParse (Spec.C15.splitOp s).2 = none) :
     ∃ v, cls v = some k ∧ parseText ext s = some ⟨toBin op, op.ordering, v⟩ := by
-  unfold Spec.C15.critOfText at h
-  simp only at h
-  split at h
-  · simp at h
-  · rename_i hnl
-    have hnl' : (Spec.C15.splitOp s).2.contains '\n' = false := by simpa using hnl
-    split at h
-    · rename_i q hq
-      simp only [Option.some.injEq, Prod.mk.injEq] at h
-      obtain ⟨n, hn, hp⟩ := parse_numeric ext s q hnl' hq
-      exact ⟨.num n, by simp [cls, hn, ← h.2], by rw [hp, h.1]⟩
-    · split at h
-      · rename_i hw
-        simp only [Option.some.injEq, Prod.mk.injEq] at h
-        exact ⟨.text (Spec.C15.splitOp s).2, by simp [cls, ← h.2], by rw [parse_word ext s hw hdate, h.1]⟩
-      · simp at h
-
-/-! ## the check closures -/
-
-/-- the type class of a value as a number (the code's `sort_precedence`) -/
-def kindNat : Cls → Nat | .number _ => 0 | .text _ => 1 | .logical _ => 2
-
-theorem precedence_cls {v : S} {k : Cls} (h : cls v = some k) :
-    precedence v = some (kindNat k) ∧ isBlank v = false := by
-  cases v <;> simp [cls] at h <;> subst h <;> exact ⟨rfl, rfl⟩
-
-theorem sameKind_iff (x k : Cls) : Spec.C15.sameKind x k = decide (kindNat x = kindNat k) := by
-  cases x <;> cases k <;> rfl
-
-/-- a check result that is not an error object -/
-def CheckR.clean : CheckR → Prop | .err _ => False | _ => True
+  apply Lemmas.C15.parse_refines <;> assumption
 
 /-- **the closure of a text criterion decides the statement's predicate**: on a cell of class `x`
     it returns a (Python or Excel) boolean whose truth is `holds op k x`; an ordering criterion
@@ -161,76 +85,12 @@ theorem checkText_spec (ext : Ext) (op : Spec.C15.Op) {v probe : S} {k x : Cls}
     (hv : cls v = some k) (hp : cls probe = some x) :
     ∃ r, checkText ext ⟨toBin op, op.ordering, v⟩ probe = .ok r ∧
       r.truthy = Spec.C15.holds op k x ∧ CheckR.clean r := by
-  obtain ⟨c1, c2, c3, c4, c5, c6⟩ := Props.C09.cmp_refines ext hp hv
-  obtain ⟨p1, b1⟩ := precedence_cls hp
-  obtain ⟨p2, _⟩ := precedence_cls hv
-  cases op <;>
-    simp only [checkText, toBin, Spec.C15.Op.ordering, p1, p2, b1, c1, c2, c3, c4, c5, c6, ofOpR,
-      Spec.C15.holds, sameKind_iff, if_true, Bool.false_eq_true, if_false]
-  · exact ⟨_, rfl, rfl, trivial⟩
-  · exact ⟨_, rfl, rfl, trivial⟩
-  all_goals
-    by_cases hk : kindNat x = kindNat k
-    · simp [hk, CheckR.truthy, CheckR.clean]
-    · simp [hk, CheckR.truthy, CheckR.clean]
+  apply Lemmas.C15.checkText_spec <;> assumption
 
 /-- the closure of a plain-value criterion is equality with that value -/
 theorem checkPlain_spec {crit probe : S} {k x : Cls} (hv : cls crit = some k) (hp : cls probe = some x) :
     ∃ r, checkPlain crit probe = .ok r ∧ r.truthy = Spec.C15.holds .eq k x ∧ CheckR.clean r := by
-  obtain ⟨_, _, c3, _, _, _⟩ := Props.C09.cmp_refines Ext.none hp hv
-  have hne : ∀ c, probe ≠ .err c := by intro c h; subst h; simp [cls] at hp
-  have h1 : firstErr probe crit = none := (Props.C09.firstErr_none hp hv).1
-  have : richCmp .eq probe crit = .val (.bool (decide (x = k))) := by
-    simpa [binop, h1] using c3
-  cases probe <;> simp_all [checkPlain, ofOpR, CheckR.truthy, CheckR.clean, Spec.C15.holds]
-
-/-! ## COUNTIF -/
-
-theorem sumChecks_count (l : List CheckR) (hl : ∀ r ∈ l, CheckR.clean r) (isNum : Bool) (n : Int) :
-    sumChecks l isNum n = .ok (.num (.int (n + ((l.filter CheckR.truthy).length : Nat)))) := by
-  induction l generalizing isNum n with
-  | nil => simp [sumChecks]
-  | cons r rest ih =>
-    have hr := hl r (by simp)
-    have ih' := fun b m => ih (fun x hx => hl x (by simp [hx])) b m
-    cases r with
-    | pyFalse => simp [sumChecks, ih', CheckR.truthy]
-    | b v =>
-      cases v
-      · simp [sumChecks, ih', CheckR.truthy]
-      · have : (List.filter CheckR.truthy (CheckR.b true :: rest)).length
-            = (List.filter CheckR.truthy rest).length + 1 := by
-          rw [List.filter_cons_of_pos (by rfl)]; rfl
-        simp only [sumChecks, ih', this, if_true]
-        congr 3; push_cast; omega
-    | err c => exact absurd hr (by simp [CheckR.clean])
-
-/-- a check that decides `pred` on classified cells counts like the filter -/
-theorem mapE_counts (chk : S → Except Crash CheckR) (pred : Cls → Bool)
-    (hchk : ∀ probe x, cls probe = some x → ∃ r, chk probe = .ok r ∧ r.truthy = pred x ∧ CheckR.clean r)
-    (cells : List S) (hc : ∀ c ∈ cells, cls c ≠ none) :
-    ∃ l, mapE chk cells = .ok l ∧ (∀ r ∈ l, CheckR.clean r) ∧
-      l.map CheckR.truthy = (cells.filterMap cls).map pred := by
-  induction cells with
-  | nil => exact ⟨[], rfl, by simp, rfl⟩
-  | cons c rest ih =>
-    obtain ⟨l, hl, hcl, hcount⟩ := ih (fun x hx => hc x (by simp [hx]))
-    have hcc := hc c (by simp)
-    cases hx : cls c with
-    | none => exact absurd hx hcc
-    | some x =>
-      obtain ⟨r, hr, ht, hclean⟩ := hchk c x hx
-      refine ⟨r :: l, by simp [mapE, hr, hl], ?_, ?_⟩
-      · intro y hy; rcases List.mem_cons.mp hy with h | h
-        · subst h; exact hclean
-        · exact hcl y h
-      · simp [hx, ht, hcount]
-
-theorem filter_length_map {α} (l : List α) (f : α → Bool) :
-    (l.filter f).length = ((l.map f).filter id).length := by
-  induction l with
-  | nil => rfl
-  | cons a r ih => by_cases h : f a = true <;> simp [h, ih]
+  apply Lemmas.C15.checkPlain_spec <;> assumption
 
 /-- **countif_spec (text criterion)**: for every criterion text the statement gives a meaning to and
     every column of numbers/texts, COUNTIF is the number of cells for which the criterion holds —
@@ -240,26 +100,206 @@ theorem countif_spec (ext : Ext) (s : List Char) (op : Spec.C15.Op) (k : Cls)
     (hdate : ext.dateParse (Spec.C15.splitOp s).2 = none)
     (cells : List S) (hc : ∀ c ∈ cells, cls c ≠ none) :
     COUNTIF ext cells (.text s) = .ok (.num (.int (Spec.C15.countif op k (cells.filterMap cls)))) := by
-  obtain ⟨v, hv, hp⟩ := parse_refines ext s op k h hdate
-  obtain ⟨l, hl, hcl, hm⟩ := mapE_counts (checkText ext ⟨toBin op, op.ordering, v⟩) (Spec.C15.holds op k)
-    (fun probe x hx => checkText_spec ext op hv hx) cells hc
-  simp only [COUNTIF, mkCheck, hp, Option.map_some, hl, sumChecks_count l hcl, Spec.C15.countif]
-  rw [filter_length_map l, hm, ← filter_length_map]
-  simp
+  apply Lemmas.C15.countif_spec <;> assumption
 
 /-- **countif_spec (plain value)**: a criterion that is a value counts the cells equal to it -/
 theorem countif_value (ext : Ext) (crit : S) (k : Cls) (hk : cls crit = some k) (ht : ∀ t, crit ≠ .text t)
     (cells : List S) (hc : ∀ c ∈ cells, cls c ≠ none) :
     COUNTIF ext cells crit = .ok (.num (.int (Spec.C15.countif .eq k (cells.filterMap cls)))) := by
-  obtain ⟨l, hl, hcl, hm⟩ := mapE_counts (checkPlain crit) (Spec.C15.holds .eq k)
-    (fun probe x hx => checkPlain_spec hk hx) cells hc
-  have hne : ∀ c, crit ≠ .err c := by intro c h; subst h; simp [cls] at hk
-  cases crit with
-  | text t => exact absurd rfl (ht t)
-  | err c => exact absurd rfl (hne c)
-  | _ =>
-    simp only [COUNTIF, mkCheck, hl, sumChecks_count l hcl, Spec.C15.countif]
-    rw [filter_length_map l, hm, ← filter_length_map]
-    simp
+  apply Lemmas.C15.countif_value <;> assumption
+
+/-- **the regrouping loop recovers the (range, criterion) pairs** when every range has the length of
+    the first one -/
+theorem regroup_pairs (n : Nat) (more : List (List S × S)) (hlen : ∀ p ∈ more, p.1.length = n)
+    (checks : List S) (ranges : List (List S)) :
+    regroup n (flattenPairs more) checks ranges [] 0 =
+      (checks.reverse ++ more.map (·.2), ranges.reverse ++ more.map (·.1)) := by
+  apply Lemmas.C15.regroup_pairs <;> assumption
+
+/-- **countifs_conj**: for ranges of one common length and criteria the statement gives a meaning to,
+    COUNTIFS — through the flattening of its varargs and the regrouping loop — is the number of
+    positions at which every criterion holds on its own range. -/
+theorem countifs_conj (ext : Ext) (hdate : ∀ t, ext.dateParse t = none)
+    (r1 : List S) (c1 : S) (more : List (List S × S))
+    (hlen : ∀ p ∈ more, p.1.length = r1.length)
+    (sp : List (List Cls × Spec.C15.Op × Cls))
+    (h : AllPairs ((r1, c1) :: more) sp) :
+    COUNTIFS ext r1 c1 (flattenPairs more) = .ok (.num (.int (Spec.C15.countifs sp))) := by
+  apply Lemmas.C15.countifs_conj <;> assumption
+
+/-- **refinement, exact MATCH**: on a column of classified cells MATCH(key, column, 0) is the
+    statement's `matchExact`: the 1-based position of the first equal element, #N/A if none. -/
+theorem match_exact_refines {key : S} {k : Cls} (hk : cls key = some k) (cells : List S) (xs : List Cls)
+    (hne : cells ≠ []) (hc : cells.map cls = xs.map some) :
+    MATCH key (cells.map fun x => [x]) (.num (.int 0)) =
+      .ok (match Spec.C15.matchExact k xs with
+           | some p => .num (.int (p : Int))
+           | none => .err .na) := by
+  apply Lemmas.C15.match_exact_refines <;> assumption
+
+/-- **match_exact_first**: if exact MATCH returns position `p`, element `p` equals the key and no
+    earlier element does; if it returns #N/A, no element equals the key. (Equality is that of the one
+    total order: numbers numerically, texts case-insensitively.) -/
+theorem match_exact_first {key : S} {k : Cls} (hk : cls key = some k) (cells : List S) (xs : List Cls)
+    (hne : cells ≠ []) (hc : cells.map cls = xs.map some) :
+    (∀ p : Nat, MATCH key (cells.map fun x => [x]) (.num (.int 0)) = .ok (.num (.int p)) →
+        1 ≤ p ∧ xs[p - 1]? = some k ∧ ∀ i, i < p - 1 → xs[i]? ≠ some k) ∧
+    (MATCH key (cells.map fun x => [x]) (.num (.int 0)) = .ok (.err .na) → ∀ x ∈ xs, x ≠ k) ∧
+    ((∃ p : Nat, MATCH key (cells.map fun x => [x]) (.num (.int 0)) = .ok (.num (.int p))) ∨
+      MATCH key (cells.map fun x => [x]) (.num (.int 0)) = .ok (.err .na)) := by
+  apply Lemmas.C15.match_exact_first <;> assumption
+
+/-- **refinement, approximate MATCH**: on an ascending column of classified cells MATCH(key, column, 1)
+    (and MATCH(key, column)) is the last position whose value does not exceed the key, #N/A if there
+    is none. -/
+theorem match_approx_refines {key : S} {k : Cls} (hk : cls key = some k) (cells : List S) (xs : List Cls)
+    (hne : cells ≠ []) (hc : cells.map cls = xs.map some) (hasc : Spec.C15.ascending xs = true) :
+    MATCH key (cells.map fun x => [x]) (.num (.int 1)) =
+      .ok (match Spec.C15.lastLe k xs with
+           | 0 => .err .na
+           | p + 1 => .num (.int ((p + 1 : Nat) : Int))) := by
+  apply Lemmas.C15.match_approx_refines <;> assumption
+
+/-- **match_approx_last_le**: on ascending data, if approximate MATCH returns position `p` then
+    element `p` does not exceed the key and every later element does; if it returns #N/A every element
+    exceeds the key; and it returns one of the two. -/
+theorem match_approx_last_le {key : S} {k : Cls} (hk : cls key = some k) (cells : List S) (xs : List Cls)
+    (hne : cells ≠ []) (hc : cells.map cls = xs.map some) (hasc : Spec.C15.ascending xs = true) :
+    (∀ p : Nat, MATCH key (cells.map fun x => [x]) (.num (.int 1)) = .ok (.num (.int p)) →
+        1 ≤ p ∧ (∃ x, xs[p - 1]? = some x ∧ Spec.C15.leb x k = true) ∧
+        ∀ j y, p - 1 < j → xs[j]? = some y → Spec.C15.leb y k = false) ∧
+    (MATCH key (cells.map fun x => [x]) (.num (.int 1)) = .ok (.err .na) →
+        ∀ x ∈ xs, Spec.C15.leb x k = false) ∧
+    ((∃ p : Nat, MATCH key (cells.map fun x => [x]) (.num (.int 1)) = .ok (.num (.int p))) ∨
+      MATCH key (cells.map fun x => [x]) (.num (.int 1)) = .ok (.err .na)) := by
+  apply Lemmas.C15.match_approx_last_le <;> assumption
+
+/-- **vlookup_spec**: for a rectangular table with classified key cells and a whole column index,
+    VLOOKUP(key, table, col, FALSE) is the statement's lookup: the requested column of the first row
+    whose key equals the lookup value, #N/A if there is none, #VALUE! for a column outside the table. -/
+theorem vlookup_spec {key : S} {k : Cls} (hk : cls key = some k) (rows : List (List S))
+    (sp : List (Cls × List S)) (hkr : KeyedRows rows sp) (w : Nat) (hw : ∀ row ∈ rows, row.length = w)
+    (hne : rows ≠ []) (c : Int) :
+    VLOOKUP key rows (.int c) false =
+      (match Spec.C15.vlookup k sp w c with
+       | .value v => .ok v
+       | .na => .ok (.err .na)
+       | .colError => .ok (.err .value)) := by
+  apply Lemmas.C15.vlookup_spec <;> assumption
+
+/-- **vlookup_col_range**: a column index below 1 or beyond the width of the table is `#VALUE!`,
+    whatever the table contains (also for fractional indices, which are truncated first). -/
+theorem vlookup_col_range (key : S) (hkey : ∀ e, key ≠ .err e) (r0 : List S) (rows : List (List S))
+    (colIndex : Num) (h : truncNum colIndex < 1 ∨ truncNum colIndex > r0.length) :
+    VLOOKUP key (r0 :: rows) colIndex false = .ok (.err .value) := by
+  apply Lemmas.C15.vlookup_col_range <;> assumption
+
+/-- **choose_spec**: CHOOSE(i, v1..vn) with a whole index is v_i, and #VALUE! when i is outside 1..n
+    (n ≤ 254, the number of arguments Excel allows). -/
+theorem choose_spec (ext : Ext) (i : Int) (values : List S) (hlen : values.length ≤ 254) :
+    CHOOSE ext (.num (.int i)) values =
+      (match Spec.C15.choose i values with
+       | some v => .ok v
+       | none => .ok (.err .value)) := by
+  apply Lemmas.C15.choose_spec <;> assumption
+
+/-- an index below 1 — also a fractional one such as 0.5 — is #VALUE! -/
+theorem choose_below_one (ext : Ext) (n : Num) (values : List S) (h : n.toRat < 1) :
+    CHOOSE ext (.num n) values = .ok (.err .value) := by
+  apply Lemmas.C15.choose_below_one <;> assumption
+
+/-- a fractional index inside 1..n selects the value at the truncated position -/
+theorem choose_fractional (ext : Ext) (q : Rat) (values : List S) (hlen : values.length ≤ 254)
+    (h1 : 1 ≤ q) (h2 : q ≤ (values.length : Rat)) :
+    CHOOSE ext (.num (.flt q)) values =
+      (match Spec.C15.choose q.floor values with
+       | some v => .ok v
+       | none => .ok (.err .value)) := by
+  apply Lemmas.C15.choose_fractional <;> assumption
+
+/-! ## non-vacuity: the hypotheses of the theorems are met by ordinary inputs -/
+
+-- the statement gives these criteria a meaning (hypothesis `critOfText s = some …`)
+example : Spec.C15.critOfText "<-1".toList = some (.lt, .number (-1)) := by decide
+example : Spec.C15.critOfText ">=-2.5".toList = some (.ge, .number (-5/2)) := by decide +kernel
+example : Spec.C15.critOfText "<>Apple pie".toList = some (.ne, .text "APPLE PIE".toList) := by decide
+example : Spec.C15.critOfText "apple".toList = some (.eq, .text "APPLE".toList) := by decide
+example : Spec.C15.critOfText "true".toList = none := by decide          -- not a word of the statement
+example : Spec.C15.critOfText " 1".toList = none := by decide            -- nor a numeral
+-- numerals and words of the grammar (hypotheses of `parse_numeric` / `parse_word`)
+example : Spec.C15.number? "-2.5".toList = some (-5/2) := by decide +kernel
+example : Spec.C15.number? "10".toList = some 10 := by decide
+example : Spec.C15.isWord "kiwi fruit".toList = true := by decide
+example : (Spec.C15.splitOp "<=kiwi".toList) = ("<=".toList, "kiwi".toList) := by decide
+-- classified cells and columns (hypotheses `cls c ≠ none`, `cells.map cls = xs.map some`)
+example : [S.num (.int 3), S.text "a".toList].map cls = [Cls.number 3, Cls.text "A".toList].map some := by
+  simp [cls, Num.toRat, upperAscii]
+-- ascending data with a duplicate (hypothesis of the approximate-MATCH theorems)
+example : Spec.C15.ascending [.number 10, .number 20, .number 20, .text "A".toList] = true := by decide
+-- a keyed table and pairs
+example : KeyedRows [[.num (.int 1), .text "a".toList]] [(.number 1, [.num (.int 1), .text "a".toList])] := by
+  simp [KeyedRows, cls, Num.toRat]
+example : AllPairs [([.num (.int 1)], .text ">0".toList)] [([.number 1], .gt, .number 0)] :=
+  .cons ⟨by decide, by simp [cls, Num.toRat]⟩ .nil
+-- the date parser of the driver accepts nothing (hypothesis `hdate`)
+example : ∀ t, Ext.none.dateParse t = none := fun _ => rfl
+
+/-! ## the model on concrete inputs: the repaired defects stay repaired -/
+
+-- D29: a signed operand after the operator is a number, not text compared for equality
+example : parseText Ext.none "<-1".toList = some ⟨.lt, true, .num (.int (-1))⟩ := by decide
+example : parseText Ext.none ">=-2.5".toList = some ⟨.ge, true, .num (.flt (-5/2))⟩ := by decide +kernel
+example : COUNTIF Ext.none [.num (.int 1), .num (.int (-2)), .text "a".toList] (.text "<-1".toList)
+    = .ok (.num (.int 1)) := by decide
+-- D30: an ordering criterion only matches cells of its operand's own type
+example : COUNTIF Ext.none [.num (.int 2), .text "apple".toList, .bool true] (.text ">1".toList)
+    = .ok (.num (.int 1)) := by decide
+example : COUNTIF Ext.none [.num (.int 2), .text "apple".toList, .text "B".toList] (.text ">=b".toList)
+    = .ok (.num (.int 1)) := by decide
+-- texts match case-insensitively; `<>` matches every other cell
+example : COUNTIF Ext.none [.text "Apple".toList, .text "APPLE".toList, .num (.int 1)] (.text "apple".toList)
+    = .ok (.num (.int 2)) := by decide
+example : COUNTIF Ext.none [.text "Apple".toList, .text "pear".toList, .num (.int 1)] (.text "<>apple".toList)
+    = .ok (.num (.int 2)) := by decide
+-- COUNTIFS through the flattened varargs: (1,2,3) ">1" and (1,2,3) "<3" agree at one position
+example : COUNTIFS Ext.none [.num (.int 1), .num (.int 2), .num (.int 3)] (.text ">1".toList)
+    [.num (.int 1), .num (.int 2), .num (.int 3), .text "<3".toList] = .ok (.num (.int 1)) := by decide
+-- unequal lengths are outside the statement; the code drops a shorter later range with its criterion …
+example : COUNTIFS Ext.none [.num (.int 1), .num (.int 2), .num (.int 3)] (.text ">1".toList)
+    [.num (.int 1), .num (.int 2), .text "<2".toList] = .ok (.num (.int 2)) := by decide
+-- … and takes the surplus cell of a longer one as its criterion
+example : COUNTIFS Ext.none [.num (.int 1), .num (.int 2)] (.text ">0".toList)
+    [.num (.int 5), .num (.int 2), .num (.int 2), .text "<9".toList] = .ok (.num (.int 1)) := by decide
+-- D31: VLOOKUP returns the requested column; column 0 is an error
+example : VLOOKUP (.text "k2".toList)
+    [[.text "k1".toList, .num (.int 1), .num (.int 2)], [.text "k2".toList, .num (.int 3), .num (.int 4)]]
+    (.int 3) false = .ok (.num (.int 4)) := by decide
+example : VLOOKUP (.text "k2".toList) [[.text "k2".toList, .num (.int 3)]] (.int 0) false = .ok (.err .value) := by
+  decide
+-- D1502: duplicated key → first row; column 1 → the key column; text keys match case-insensitively
+example : VLOOKUP (.num (.int 2))
+    [[.num (.int 1), .text "a".toList], [.num (.int 2), .text "c".toList], [.num (.int 2), .text "e".toList]]
+    (.int 2) false = .ok (.text "c".toList) := by decide
+example : VLOOKUP (.text "K".toList) [[.text "k".toList, .num (.int 7)]] (.int 1) false = .ok (.text "k".toList) := by
+  decide
+-- D32 / D1503: approximate MATCH past the end and on a run of equal values
+example : MATCH (.num (.int 45)) [[.num (.int 10)], [.num (.int 20)], [.num (.int 30)], [.num (.int 40)]]
+    (.num (.int 1)) = .ok (.num (.int 4)) := by decide
+example : MATCH (.num (.int 20)) [[.num (.int 10)], [.num (.int 20)], [.num (.int 20)], [.num (.int 40)]]
+    (.num (.int 1)) = .ok (.num (.int 3)) := by decide
+example : MATCH (.num (.int 20)) [[.num (.int 10)], [.num (.int 20)], [.num (.int 20)], [.num (.int 40)]]
+    (.num (.int 0)) = .ok (.num (.int 2)) := by decide
+-- match_type -1 as coded (outside the statement): first equal, else the last value still ≥ the key
+example : MATCH (.num (.int 25)) [[.num (.int 40)], [.num (.int 30)], [.num (.int 20)]] (.num (.int (-1)))
+    = .ok (.num (.int 2)) := by decide
+-- a row vector is an AssertionError of the code, an empty array an IndexError (outside the statement)
+example : MATCH (.num (.int 2)) [[.num (.int 1), .num (.int 2)]] (.num (.int 0)) = .crash .assertion := by decide
+-- D1501: CHOOSE with an index between 0 and 1
+example : CHOOSE Ext.none (.num (.flt (1/2))) [.text "a".toList, .text "b".toList] = .ok (.err .value) := by
+  decide +kernel
+example : CHOOSE Ext.none (.num (.int 2)) [.text "a".toList, .text "b".toList] = .ok (.text "b".toList) := by
+  decide +kernel
+example : CHOOSE Ext.none (.num (.int 3)) [.text "a".toList, .text "b".toList] = .ok (.err .value) := by
+  decide +kernel
 
 end XlVerif.Props.C15
